@@ -312,6 +312,47 @@ def wide_rules(rec, rng):
                 return
 
 
+def own_defaults(rec, rng):
+    """A rule that carries a default for a variable of its own URL (directly, or through a Submount prefix): the URL is
+    built with the converter's rendering of the default and matches back to the endpoint and the default."""
+    from urllib.parse import unquote
+
+    from werkzeug.exceptions import HTTPException
+    from werkzeug.routing import Map, Rule, Submount
+
+    u = uuid.UUID(int=rng.getrandbits(128))
+    n3 = rng.choice([0, 7, 42, 999])
+    cells = [
+        ([Rule("/vol/<int(fixed_digits=3):n>/cover", defaults={"n": n3}, endpoint="a")], {"n": n3}, "a"),
+        ([Rule("/zoom/<float:z>", defaults={"z": 1}, endpoint="a")], {"z": 1}, "a"),
+        ([Rule("/zoom/<float(signed=True):z>/x", defaults={"z": -2.5}, endpoint="a")], {"z": -2.5}, "a"),
+        ([Submount("/<int(fixed_digits=2):k>", [Rule("/x", defaults={"k": 3}, endpoint="a")])], {"k": 3}, "a"),
+        ([Rule('/t/<any("a b","c?d"):v>', defaults={"v": "c?d"}, endpoint="a")], {"v": "c?d"}, "a"),
+        ([Rule("/s/<string:s>/t", defaults={"s": "\u00fc x;y"}, endpoint="a")], {"s": "\u00fc x;y"}, "a"),
+        ([Rule("/u/<uuid:u>", defaults={"u": u}, endpoint="a")], {"u": u}, "a"),
+        ([Rule("/p/<path:p>", defaults={"p": "a b/c"}, endpoint="a")], {"p": "a b/c"}, "a"),
+        ([Rule("/m/<int(fixed_digits=3):n>/<string:t>", defaults={"n": 5}, endpoint="a")], {"n": 5, "t": "x y"}, "a"),
+    ]
+    for rules, vals, ep in cells:
+        case = {"part": "own-default", "rules": repr(rules), "values": repr(vals)}
+        rec.case()
+        rec.nontrivial(("own-default", repr(rules)))
+        rec.observe("rules_with_a_default_for_their_own_variable")
+        ad = Map(rules + [Rule("/other", endpoint="other")]).bind("h.com", "/")
+        try:
+            url = ad.build(ep, vals)
+            got = ad.match(unquote(url))
+        except HTTPException as e:
+            rec.violation("C04/built-url-does-not-match", f"{rules!r}: build({vals!r}) does not match back: {type(e).__name__}", case, monitor="law1")
+            return
+        if got != (ep, vals):
+            rec.violation("C04/build-then-match:values-differ", f"{rules!r}: built {url!r}, matching gives {got!r}", case, monitor="law1")
+            return
+        if ad.build(*got) != url:
+            rec.violation("C04/match-then-build-differs", f"{rules!r}: {url!r} rebuilt as {ad.build(*got)!r}", case, monitor="law2")
+            return
+
+
 def run(shard, rec, rng):
     from werkzeug.exceptions import HTTPException
     from werkzeug.routing import EndpointPrefix, Map, RequestRedirect, Rule, Subdomain, Submount
@@ -331,6 +372,7 @@ def run(shard, rec, rng):
     cfg = TIERS[shard["_tier"]]
     concurrent_first_use(rec, rng, cfg.get("concurrent", 6))
     wide_rules(rec, rng)
+    own_defaults(rec, rng)
     for it in range(cfg["maps"]):
         nr = rng.randint(1, 4)
         mode = rng.choice(["plain", "plain", "subdomain", "host", "submount", "subdomainfactory", "default_subdomain"])
@@ -341,8 +383,10 @@ def run(shard, rec, rng):
                 convs = [c for c in convs if c != "path"] + ["path"]
             segs = [f"e{i}"]
             for j, c in enumerate(convs):
-                pre = rng.choice(["", "", "", "p-", "x."])
-                suf = rng.choice(["", "", "", ".s"]) if c != "path" else ""
+                # literal text around a variable inside one segment, also characters that mean something to a regular
+                # expression engine (the rule language gives them no meaning)
+                pre = rng.choice(["", "", "", "p-", "x.", "a+", "(", "[", "^", "c|"])
+                suf = rng.choice(["", "", "", ".s", "+s", ")", "]", "$", "*", "|d", "{2}", "?q"]) if c != "path" else ""
                 lit = rng.choice([None, None, "mid"])
                 if lit:
                     segs.append(lit)
